@@ -109,6 +109,32 @@ def substKeys (opts : V) : List String → String → List String → Except REr
     | .keyErr => (.error (.key k), rd ++ [k])
     | .typeErr => (.error .type, rd ++ [k])
 
+/-- resolve the values of a dict with `f`, left to right, concatenating the read logs -/
+def resolveKvs (f : V → Option (Except RErr V × List String)) :
+    List (String × V) → Option (Except RErr (List (String × V)) × List String)
+  | [] => some (.ok [], [])
+  | (k, v) :: rest =>
+    match f v with
+    | Option.none => Option.none
+    | some (.error e, rd) => some (.error e, rd)
+    | some (.ok v', rd) => match resolveKvs f rest with
+      | Option.none => Option.none
+      | some (.error e, rd') => some (.error e, rd ++ rd')
+      | some (.ok rest', rd') => some (.ok ((k, v') :: rest'), rd ++ rd')
+
+/-- resolve the elements of a list with `f`, left to right -/
+def resolveList (f : V → Option (Except RErr V × List String)) :
+    List V → Option (Except RErr (List V) × List String)
+  | [] => some (.ok [], [])
+  | v :: rest =>
+    match f v with
+    | Option.none => Option.none
+    | some (.error e, rd) => some (.error e, rd)
+    | some (.ok v', rd) => match resolveList f rest with
+      | Option.none => Option.none
+      | some (.error e, rd') => some (.error e, rd ++ rd')
+      | some (.ok rest', rd') => some (.ok (v' :: rest'), rd ++ rd')
+
 /-- `confectioner.templating.resolve(x, opts)` together with the *read log* (every dotted key
     looked up in `opts`, in order); `none` = out of fuel (Python: RecursionError) -/
 def resolveR : Nat → V → V → Option (Except RErr V × List String)
@@ -116,32 +142,12 @@ def resolveR : Nat → V → V → Option (Except RErr V × List String)
   | n + 1, x, opts =>
     match x with
     | .dict kvs =>
-      let rec goK : List (String × V) → Option (Except RErr (List (String × V)) × List String)
-        | [] => some (.ok [], [])
-        | (k, v) :: rest =>
-          match resolveR n v opts with
-          | Option.none => Option.none
-          | some (.error e, rd) => some (.error e, rd)
-          | some (.ok v', rd) => match goK rest with
-            | Option.none => Option.none
-            | some (.error e, rd') => some (.error e, rd ++ rd')
-            | some (.ok rest', rd') => some (.ok ((k, v') :: rest'), rd ++ rd')
-      match goK kvs with
+      match resolveKvs (fun v => resolveR n v opts) kvs with
       | Option.none => Option.none
       | some (.error e, rd) => some (.error e, rd)
       | some (.ok kvs', rd) => some (.ok (.dict kvs'), rd)
     | .list xs =>
-      let rec goL : List V → Option (Except RErr (List V) × List String)
-        | [] => some (.ok [], [])
-        | v :: rest =>
-          match resolveR n v opts with
-          | Option.none => Option.none
-          | some (.error e, rd) => some (.error e, rd)
-          | some (.ok v', rd) => match goL rest with
-            | Option.none => Option.none
-            | some (.error e, rd') => some (.error e, rd ++ rd')
-            | some (.ok rest', rd') => some (.ok (v' :: rest'), rd ++ rd')
-      match goL xs with
+      match resolveList (fun v => resolveR n v opts) xs with
       | Option.none => Option.none
       | some (.error e, rd) => some (.error e, rd)
       | some (.ok xs', rd) => some (.ok (.list xs'), rd)
